@@ -40,6 +40,7 @@ _sketch_array((static_cast<uint64_t>(num_hashes)*num_buckets < 1<<30) ? static_c
 _seed(seed),
 _total_weight(0) {
   if (num_buckets < 3) throw std::invalid_argument("Using fewer than 3 buckets incurs relative error greater than 1.");
+  if (num_hashes < 1) throw std::invalid_argument("At least one hash function is required.");
 
   // This check is to ensure later compatibility with a Java implementation whose maximum size can only
   // be 2^31-1.  We check only against 2^30 for simplicity.
@@ -320,6 +321,7 @@ auto count_min_sketch<W,A>::deserialize(std::istream& is, uint64_t seed, const A
   const auto nhashes = read<uint8_t>(is);
   const auto seed_hash = read<uint16_t>(is);
   read<uint8_t>(is); // 1 unused byte
+  if (!is.good()) throw std::runtime_error("error reading from std::istream");
 
   if (seed_hash != compute_seed_hash(seed)) {
     throw std::invalid_argument("Incompatible seed hashes: " + std::to_string(seed_hash) + ", "
@@ -333,6 +335,7 @@ auto count_min_sketch<W,A>::deserialize(std::istream& is, uint64_t seed, const A
   const auto weight = read<W>(is);
   c._total_weight += weight;
   read(is, c._sketch_array.data(), sizeof(W) * c._sketch_array.size());
+  if (!is.good()) throw std::runtime_error("error reading from std::istream");
 
   return c;
 }
@@ -421,11 +424,12 @@ auto count_min_sketch<W,A>::deserialize(const void* bytes, size_t size, uint64_t
     throw std::invalid_argument("Incompatible seed hashes: " + std::to_string(seed_hash) + ", "
                                 + std::to_string(compute_seed_hash(seed)));
   }
-  count_min_sketch c(nhashes, nbuckets, seed, allocator);
   const bool is_empty = (flags_byte & (1 << flags::IS_EMPTY)) > 0;
+  // check the size (preamble included, 64-bit arithmetic) before the table is allocated
+  if (!is_empty) ensure_minimum_memory(size, PREAMBLE_LONGS_SHORT * sizeof(uint64_t)
+                                             + sizeof(W) * (1 + static_cast<uint64_t>(nbuckets) * nhashes));
+  count_min_sketch c(nhashes, nbuckets, seed, allocator);
   if (is_empty) return c; // sketch is empty, no need to read further.
-
-  ensure_minimum_memory(size, sizeof(W) * (1 + nbuckets * nhashes));
 
   // Long 2 is the weight.
   W weight;
